@@ -138,7 +138,7 @@ def main():
         try:
             for ck in checks:
                 t0 = time.time()
-                rc, o = sh("bin/check.sh %s %s" % (ck, tier), cwd=VERIF, timeout=7200)
+                rc, o = sh("bin/check.sh %s %s" % (ck, tier), cwd=VERIF, timeout=7200, env=dict(os.environ, VERIF_EVIDENCE_DIR="/tmp/verif_evidence_scratch"))
                 viol = [l for l in o.splitlines() if l.startswith("VIOLATION")]
                 detail = [l for l in o.splitlines() if l.startswith("  ") and not l.startswith("   ")][:3]
                 results["%s/%s" % (ck, tier)] = {"exit": rc, "violations": viol[:3], "detail": [d[:700] for d in detail], "wall_s": round(time.time() - t0),
